@@ -163,7 +163,7 @@ fn run(ctx: &Ctx) {
          or unknown factorisation above 16 bits); distinct by (profile, selector, n, prefs).",
     );
     ctx.assume("termination is checked up to a per-case watchdog (120 s quick / 600 s thorough); a watchdog hit is inconclusive, not a violation");
-    ctx.assume("preferences are the defaults plus threads in {None, 2} and the documented double-large-prime switch in {None, true, false}; tuning overrides (factor-base size, interval, large-prime multiplier) are outside the property");
+    ctx.assume("preferences are the defaults plus threads in {None, 2} the documented double-large-prime switch in {None, true, false} and the verbosity level in {silent, info, verbose, debug}; tuning overrides (factor-base size, interval, large-prime multiplier) are outside the property");
     ctx.assume("the 501..512-bit band is probed: acceptance is recorded, only a panic or a wrong result is flagged");
     let quick = ctx.quick();
     let timeout = ctx.pick(120.0, 600.0);
@@ -202,6 +202,10 @@ fn run(ctx: &Ctx) {
                         _ => None,
                     };
                 }
+                // so is the verbosity level (ymqs -v): the progress / diagnostic code it switches on must be total too
+                if j % 7 == 5 {
+                    c.prefs.verbosity = Some(1 + ((j / 7) % 3) as u8);
+                }
             }
             run_batch(ctx, &check, profile, &cases, timeout, &judge, &mut l);
         }
@@ -218,7 +222,13 @@ fn run(ctx: &Ctx) {
             let mut c = mk_case("limit-hard-semiprime", vec![certified_prime(a, 0), certified_prime(bits - a, 1)], "siqs", PrefSpec::default());
             for alg in ["qs", "mpqs", "siqs"] {
                 c.algo = alg.to_string();
+                c.prefs.verbosity = None;
                 cases.push(c.clone());
+                if bits % 16 == 0 {
+                    // the start-up diagnostics (parameter report, polynomial statistics) at these sizes
+                    c.prefs.verbosity = Some(2);
+                    cases.push(c.clone());
+                }
             }
         }
         let jobs: Vec<Value> = cases.iter().map(|c| c.job()).collect();
@@ -253,6 +263,7 @@ fn run(ctx: &Ctx) {
     ctx.essential("shape:oversize-semiprime", 10);
     ctx.essential("shape:top-of-u64", 10);
     ctx.essential("shape:prime-power", 10);
+    ctx.essential("prefs:verbose", 100);
 }
 
 fn replay(_ctx: &Ctx, check: &str, case: &Value) -> Result<(), Fail> {
